@@ -145,6 +145,8 @@ _SYM = {0: ".", 2: "-", 4: "=", 6: "#", 8: "$"}
 
 
 def atom_token(attrs):
+    if attrs.get("cgname"):
+        return render.ftok("A", "[#" + attrs["cgname"] + "]", el=attrs["cgname"])
     el = attrs["element"]
     ar = bool(attrs.get("aromatic", False))
     ch = int(attrs.get("charge", 0))
@@ -251,12 +253,16 @@ def render_fragment(frag, descs, rng, style=None):
         if not lead and not before:
             emit_descs(u, False)
         kids = tree_children[u]
+        coarse = bool(frag.nodes[u].get("cgname"))
         for i, v in enumerate(kids):
             last = i == len(kids) - 1
+            sym = bond_symbol(u, v)
+            # CGsmiles writes the bond symbol in front of the branch, SMILES inside it
+            if sym and coarse:
+                toks.append(render.ftok("B", sym))
             if not last:
                 toks.append(render.ftok("("))
-            sym = bond_symbol(u, v)
-            if sym:
+            if sym and not coarse:
                 toks.append(render.ftok("B", sym))
             write(v, False)
             if not last:
@@ -344,7 +350,7 @@ def label_for(i):
     return letters[i % 26] + (str(i // 26) if i >= 26 else "")
 
 
-def make_cut_config(g, block, rng, kinds=("$", "<>"), share=0.0, style=None):
+def make_cut_config(g, block, rng, kinds=("$", "<>"), share=0.0, style=None, prefix="F", label_offset=0):
     """
     Build the CGsmiles configuration of molecule g cut along partition `block` (node -> block id).
     Returns dict(base tokens, frags [[name, tokens]], member: atom -> set(blocks in base numbering),
@@ -365,7 +371,7 @@ def make_cut_config(g, block, rng, kinds=("$", "<>"), share=0.0, style=None):
         return None
     if not nx.is_connected(bg):
         return None
-    names = {b: "F%d" % b for b in blocks}
+    names = {b: "%s%d" % (prefix, b) for b in blocks}
     frag_nodes = {b: [n for n in g.nodes if block[n] == b] for b in blocks}
     frag_graph = {b: nx.Graph(g.subgraph(frag_nodes[b])) for b in blocks}
     descs = {b: {} for b in blocks}
@@ -373,7 +379,7 @@ def make_cut_config(g, block, rng, kinds=("$", "<>"), share=0.0, style=None):
     copies = {}         # (block, copy node key) -> original atom
     shared_ends = set()
     for i, (a, b) in enumerate(cuts):
-        lab = label_for(i)
+        lab = label_for(i + label_offset)
         o2 = ord2(g.edges[a, b].get("order", 1))
         order = 1 if o2 == 3 else o2 // 2
         if o2 == 3 and not (g.nodes[a].get("aromatic") and g.nodes[b].get("aromatic")):
@@ -416,5 +422,38 @@ def make_cut_config(g, block, rng, kinds=("$", "<>"), share=0.0, style=None):
         for n, p in pos.items():
             posmap[(names[b], p)] = copies.get((b, n), n)
     member = {n: sorted(numbering[b] for b in bs) for n, bs in extra_member.items()}
-    return {"base": base_toks, "frags": frags, "member": member, "posmap": posmap,
+    return {"base": base_toks, "frags": frags, "member": member, "posmap": posmap, "bg": bg, "names": names,
             "nshared": len(copies), "ncuts": len(cuts), "nblocks": len(blocks)}
+
+
+def layered_config(g, rng, nlevels, share_top=0.0, share_atom=0.0):
+    """
+    A multi-level description of molecule g: the atoms are cut into blocks (last, atomistic level), the
+    blocks are grouped into super-blocks (coarse level), and so on `nlevels` times.  Returns
+    (top base tokens, [coarse fragment levels...], atomistic config) or None.
+    """
+    n = g.number_of_nodes()
+    block = random_partition(g, rng, rng.randint(2, max(2, min(7, n))))
+    cfg1 = make_cut_config(g, block, rng, share=share_atom, prefix="F")
+    if cfg1 is None:
+        return None
+    levels = []
+    cur = cfg1
+    prefixes = ["G", "H", "K"]
+    for lv in range(nlevels):
+        bg = cur["bg"]
+        if bg.number_of_nodes() < 2:
+            break
+        cg = nx.Graph()
+        for b in bg.nodes:
+            cg.add_node(b, cgname=cur["names"][b], element="X", charge=0, aromatic=False, hcount=0)
+        for a, b, d in bg.edges(data=True):
+            cg.add_edge(a, b, order=d["order"])
+        blk = random_partition(cg, rng, rng.randint(1, max(1, min(4, cg.number_of_nodes() - 1))))
+        nxt = make_cut_config(cg, blk, rng, share=share_top, prefix=prefixes[lv], label_offset=100 * (lv + 1))
+        if nxt is None:
+            return None
+        levels.append(nxt)
+        cur = nxt
+    return {"top": cur["base"], "coarse_levels": [lv["frags"] for lv in reversed(levels)], "atomistic": cfg1,
+            "nlevels": len(levels)}
